@@ -310,6 +310,10 @@ func fillValid(v reflect.Value, n *Node, class int) {
 	}
 }
 
+// PreallocPtrs: pre-filled destinations hold non-nil pointers to sentinel-filled pointees (a reused / partially
+// updated destination). Parse then writes into the existing pointee; what it does not name stays as it was.
+var PreallocPtrs bool
+
 // fillSentinel pre-fills a destination so that "untouched" is observable.
 func fillSentinel(v reflect.Value, n *Node) {
 	switch n.Kind {
@@ -318,7 +322,12 @@ func fillSentinel(v reflect.Value, n *Node) {
 		fillSentinel(s.Index(0), n.Elem)
 		v.Set(s)
 	case KPtr:
-		// nil stays nil
+		// nil stays nil — unless the family under way hands Parse a destination whose pointers already point somewhere
+		if PreallocPtrs {
+			p := reflect.New(v.Type().Elem())
+			fillSentinel(p.Elem(), n.Elem)
+			v.Set(p)
+		}
 	case KStruct:
 		for _, f := range n.Fields {
 			fillSentinel(v.FieldByName(goFieldName(f.Key)), f.N)
@@ -465,7 +474,38 @@ type errPost struct{ who string }
 
 func (e errPost) Error() string { return "post-error:" + e.who }
 
+// buildLate, when set, collects every node's configuration calls (Required, Default, Catch, tests, PostTransforms,
+// NotNil) instead of making them at once: BuildZogLate makes them after the whole schema tree has been composed.
+var buildLate *[]func()
+
+// BuildZogLate builds the same schema as BuildZog, but configures every node only after it has been handed to its
+// parent's constructor (z.Slice(child), z.Ptr(child), z.Struct{...}): builder methods act on the schema value, so
+// the order of composing and configuring must not matter.
+func BuildZogLate(n *Node, r *Recorder) z.ZogSchema {
+	var q []func()
+	buildLate = &q
+	s := BuildZog(n, r)
+	buildLate = nil
+	for _, f := range q {
+		f()
+	}
+	return s
+}
+
+// BuildLateMode makes every top-level BuildZog a BuildZogLate (set by the "late-config" item families).
+var BuildLateMode bool
+
 func BuildZog(n *Node, r *Recorder) z.ZogSchema {
+	if BuildLateMode && buildLate == nil {
+		return BuildZogLate(n, r)
+	}
+	cfg := func(f func()) {
+		if buildLate != nil {
+			*buildLate = append(*buildLate, f)
+		} else {
+			f()
+		}
+	}
 	who := func(s string) string { return n.Pos + "." + s }
 	mkTest := func(t TestSpec, deref bool) (z.BoolTFunc, z.TestOption) {
 		_ = deref
@@ -511,6 +551,7 @@ func BuildZog(n *Node, r *Recorder) z.ZogSchema {
 	switch n.Kind {
 	case KStr:
 		s := z.String()
+		cfg(func() {
 		if n.Req {
 			s.Required()
 		}
@@ -545,9 +586,11 @@ func BuildZog(n *Node, r *Recorder) z.ZogSchema {
 		for i := 0; i < n.NPosts; i++ {
 			s.PostTransform(mkPost(i))
 		}
+		})
 		return s
 	case KInt:
 		s := z.Int()
+		cfg(func() {
 		if n.Req {
 			s.Required()
 		}
@@ -580,9 +623,11 @@ func BuildZog(n *Node, r *Recorder) z.ZogSchema {
 		for i := 0; i < n.NPosts; i++ {
 			s.PostTransform(mkPost(i))
 		}
+		})
 		return s
 	case KFloat:
 		s := z.Float64()
+		cfg(func() {
 		if n.Req {
 			s.Required()
 		}
@@ -615,9 +660,11 @@ func BuildZog(n *Node, r *Recorder) z.ZogSchema {
 		for i := 0; i < n.NPosts; i++ {
 			s.PostTransform(mkPost(i))
 		}
+		})
 		return s
 	case KBool:
 		s := z.Bool()
+		cfg(func() {
 		if n.Req {
 			s.Required()
 		}
@@ -650,9 +697,11 @@ func BuildZog(n *Node, r *Recorder) z.ZogSchema {
 		for i := 0; i < n.NPosts; i++ {
 			s.PostTransform(mkPost(i))
 		}
+		})
 		return s
 	case KTime:
 		s := z.Time()
+		cfg(func() {
 		if n.Req {
 			s.Required()
 		}
@@ -685,9 +734,11 @@ func BuildZog(n *Node, r *Recorder) z.ZogSchema {
 		for i := 0; i < n.NPosts; i++ {
 			s.PostTransform(mkPost(i))
 		}
+		})
 		return s
 	case KSlice:
 		s := z.Slice(BuildZog(n.Elem, r))
+		cfg(func() {
 		if n.Req {
 			s.Required()
 		}
@@ -717,12 +768,15 @@ func BuildZog(n *Node, r *Recorder) z.ZogSchema {
 		for i := 0; i < n.NPosts; i++ {
 			s.PostTransform(mkPost(i))
 		}
+		})
 		return s
 	case KPtr:
 		s := z.Ptr(BuildZog(n.Elem, r))
+		cfg(func() {
 		if n.Req {
 			s.NotNil()
 		}
+		})
 		return s
 	case KStruct:
 		sc := z.Schema{}
@@ -730,6 +784,7 @@ func BuildZog(n *Node, r *Recorder) z.ZogSchema {
 			sc[f.Key] = BuildZog(f.N, r)
 		}
 		s := z.Struct(sc)
+		cfg(func() {
 		for _, t := range n.Tests {
 			fn, opt := mkTest(t, false)
 			if t.Double {
@@ -743,6 +798,7 @@ func BuildZog(n *Node, r *Recorder) z.ZogSchema {
 		for i := 0; i < n.NPosts; i++ {
 			s.PostTransform(mkPost(i))
 		}
+		})
 		return s
 	}
 	panic("BuildZog")
